@@ -59,10 +59,10 @@ class Analysis:
         self.args = None
 
         def cap(I, w, args):
+            if assume:
+                assume(I, w, args)       # may refine the world and replace entries of `args`
             self.args = list(args)
             self.w0 = w.fork()
-            if assume:
-                assume(I, w, args)
         self.rets = self.I.run_root(self.body, assume=cap)
         self.wall = time.time() - t
         self.records = self.I.all_records()
